@@ -1142,6 +1142,26 @@ class _Builder:
                 else:
                     self.env[st.target.id] = saved
                 return seq(outs)
+            # for step in (self.a, self.b): step(...)  - unrolled with the
+            # loop variable standing for each bound method in turn
+            if isinstance(st.iter, (ast.Tuple, ast.List)) and st.iter.elts and \
+                    isinstance(st.target, ast.Name) and not st.orelse and \
+                    len(st.iter.elts) <= 8 and self.cls is not None and all(
+                        isinstance(x, ast.Attribute) and self.is_self(x.value) and
+                        self.p.lookup(self.cls, x.attr) is not None
+                        for x in st.iter.elts):
+                if not hasattr(self, "fnalias"):
+                    self.fnalias = {}
+                saved_fa = self.fnalias.get(st.target.id)
+                outs = []
+                for x in st.iter.elts:
+                    self.fnalias[st.target.id] = x.attr
+                    outs.append(self.block(st.body))
+                if saved_fa is None:
+                    self.fnalias.pop(st.target.id, None)
+                else:
+                    self.fnalias[st.target.id] = saved_fa
+                return seq(outs)
             # for i, name in enumerate(<table>): the same with the position
             if isinstance(st.iter, ast.Call) and isinstance(st.iter.func, ast.Name) and \
                     st.iter.func.id == "enumerate" and len(st.iter.args) == 1 and \
@@ -1252,6 +1272,13 @@ class _Builder:
             # local aliasing of cells
             self.aliases.pop(target.id, None)
             self.objalias.pop(target.id, None)
+            if not hasattr(self, "fnalias"):
+                self.fnalias = {}
+            self.fnalias.pop(target.id, None)
+            if isinstance(value, ast.Attribute) and self.is_self(value.value) and \
+                    self.cls is not None and \
+                    self.p.lookup(self.cls, value.attr) is not None:
+                self.fnalias[target.id] = value.attr
             c = const_of(value, self.env) if value is not None else UNKNOWN
             if c is UNKNOWN and isinstance(value, ast.Call):
                 c = self.const_call(value)
@@ -1564,6 +1591,16 @@ class _Builder:
 
     def e_Call(self, e):
         fn = e.func
+        # a local bound to a bound method of self (`step = self.update_R`, or the
+        # variable of `for step in (self.a, self.b):`) is called as that method
+        if isinstance(fn, ast.Name) and fn.id in getattr(self, "fnalias", {}):
+            sn_ = self.f.params[0] if self.f.params else "self"
+            e = ast.copy_location(ast.Call(
+                func=ast.copy_location(ast.Attribute(
+                    value=ast.copy_location(ast.Name(id=sn_, ctx=ast.Load()), fn),
+                    attr=self.fnalias[fn.id], ctx=ast.Load()), fn),
+                args=e.args, keywords=e.keywords), e)
+            fn = e.func
         # hasattr/getattr on self
         if isinstance(fn, ast.Name) and fn.id == "getattr" and e.args:
             return self.getattr_call(e, None)
